@@ -38,7 +38,7 @@ def cases(tier, seed):
         yield {"kind": "ro", "seed": seed, "idx": 100000 + i, "variant": i % len(VARIANTS), "damaged": True}
     for i in range(10 if tier == "quick" else 200):
         yield {"kind": "ro_memory", "seed": seed, "idx": i}
-    for i in range(10 if tier == "quick" else 200):
+    for i in range(30 if tier == "quick" else 300):
         yield {"kind": "null", "seed": seed, "idx": i}
     if tier == "thorough":
         for i in range(200):
@@ -336,6 +336,40 @@ def run_null(case, out):
             pass
         if REC.since(mark):
             out["viol"].append({"sig": "a body ran under the null runner", "msg": "call_batch"})
+        # ... also when the store holds a memento whose result cannot be read any more (data object gone, link
+        # empty, memento file cut short): whatever the call answers, no body runs
+        st2 = env.fs_backend(sc.path("nr2"), cache_mb=rng.choice([None, 16]))
+        env.set_env(sc.path("e3"), default_storage=st2)
+        for cid in "abn":
+            ffuncs.produce(cid)
+        files = []
+        for d, _, fs in os.walk(sc.path("nr2")):
+            files += [os.path.join(d, f) for f in fs]
+        rng.shuffle(files)
+        aim = rng.choice(["data objects", "data links", "anything"])
+        if aim != "anything":  # the mementos stay, what they point to goes
+            sub = os.sep + "c" + os.sep
+            pick = [f for f in files if sub in f and ((".versions" in f) == (aim == "data objects"))]
+            files = pick + [f for f in files if f not in pick]
+        for pth in files[: rng.randint(1, 4)]:
+            if rng.random() < 0.5:
+                os.remove(pth)
+            else:
+                open(pth, "w").close()
+        env.set_env(sc.path("e3"), default_storage=env.fs_backend(sc.path("nr2"), cache_mb=rng.choice([None, 16])),
+                    runner=NullRunnerBackend())
+        for cid in list("abnz") + ["a"]:
+            mark = REC.mark()
+            try:
+                ffuncs.produce(cid)
+            except Exception:
+                pass
+            out["obs"]["null_runner_calls"] += 1
+            out["obs"]["null_runner_calls_on_a_damaged_store"] += 1
+            if REC.since(mark):
+                out["viol"].append({"sig": "a body ran under the null runner",
+                                    "msg": "produce(%r) on a store whose files %s were removed / emptied" % (
+                                        cid, [os.path.relpath(x, sc.path("nr2"))[-60:] for x in files[:4]])})
         out["nontrivial"].append("null:%d:%d" % (case["seed"], case["idx"]))
         out["sample"] = {"kind": "null", "calls": seq}
 
@@ -418,5 +452,5 @@ def run_case(case):
 def conclude(agg):
     return core.first(core.need(agg, "ro_ops", 2000), core.need(agg, "snapshots_compared", 100),
                       core.need(agg, "audit_reads_seen", 100), core.need(agg, "ro_function_calls", 100),
-                      core.need(agg, "null_runner_calls", 20), core.need(agg, "null_storage_calls", 20),
+                      core.need(agg, "null_runner_calls", 20), core.need(agg, "null_runner_calls_on_a_damaged_store", 20), core.need(agg, "null_storage_calls", 20),
                       core.need(agg, "links_damaged_before_opening_read_only", 40), core.need(agg, "ro_ops_on_damaged_stores", 500)), {}
